@@ -7,11 +7,18 @@ The file on disk is the JSON object `keyData` (local.go:31-36): four optional by
 `priv_key_encrypted`, `nonce`, `pub_key`, `salt`.  The model mirrors `saveKeys`, `loadKeys`,
 `ExportPrivateKey`, `ImportPrivateKey`, `fallbackDeriveKey`, `getAddress` *as coded*, including
 
-* what the code **trusts**: the stored public key is taken as is (local.go:365, never compared
-  with the key derived from the decrypted private key), and
-* the **partial operations** it can reach: `i % len(passphrase)` in the legacy derivation
-  (local.go:432; division by zero on an empty passphrase) and `gcm.Open` with a nonce whose length
-  is not 12 (local.go:353 / 147; `crypto/cipher` panics before it authenticates).
+* the **partial operations** the code contains: `i % len(passphrase)` in the legacy derivation
+  (`fallbackDeriveKey`; division by zero on an empty passphrase — `legacyByte`/`legacyKey` return
+  `none` there) and `gcm.Open`, which panics on a nonce whose length is not 12 before it
+  authenticates (`gcmOpen` returns `.panic` there), and
+* the **guards** in front of them (`decrypt`): a salt-less file with the empty passphrase and a
+  nonce of the wrong length are rejected with an error, and
+* the **comparison** of the stored public key with the key derived from the decrypted private key
+  (`load`): a differing stored key is rejected.
+
+`Spec.C19.C19_noPanic` proves that the guards make the panic branches unreachable; `C19_usable`
+that every signer handed out is consistent.  (`decryptPre`/`loadPre` at the end of the file are the
+behaviour before the three `fix:` commits, kept only to state what the repair changed.)
 
 Cryptography (Argon2id, AES-GCM, Ed25519, the libp2p key parsers) is a *structure of functions*
 (`Crypto`) with *laws* (`Laws`, a hypothesis bundle that the theorems take as a parameter — no
@@ -79,12 +86,19 @@ inductive Disk (C : Crypto) where
 
 inductive Err where
   | nofile | exists_ | json | auth | privkey | pubkey
+  /-- "invalid key file: nonce has %d bytes, want %d" -/
+  | nonce
+  /-- "failed to derive key: key file has no salt (legacy format) and the passphrase is empty" -/
+  | emptypass
+  /-- "invalid key file: public key does not match the private key" -/
+  | pubmismatch
   deriving DecidableEq, Repr
 
+/-- the run-time panics the code *contains* (both are guarded: `Spec.C19.C19_noPanic`) -/
 inductive Panic where
-  /-- `i % len(passphrase)` with an empty passphrase (local.go:432) -/
+  /-- `i % len(passphrase)` with an empty passphrase (`fallbackDeriveKey`) -/
   | divZero
-  /-- "crypto/cipher: incorrect nonce length given to GCM" (local.go:353, 147) -/
+  /-- "crypto/cipher: incorrect nonce length given to GCM" (`gcm.Open`) -/
   | nonceLen
   deriving DecidableEq, Repr
 
@@ -115,7 +129,7 @@ division by zero the Go runtime panics on. -/
 def legacyByte (p : Bytes) (i : Nat) : Option UInt8 :=
   if p.length = 0 then none else some (p.getD (i % p.length) 0 ^^^ i.toUInt8)
 
-/-- `fallbackDeriveKey(passphrase, 32)` (local.go:424-435). -/
+/-- `fallbackDeriveKey(passphrase, 32)`. -/
 def legacyKey (p : Bytes) : Option Bytes :=
   if keyLen ≤ p.length then some (p.take keyLen)
   else ((List.range' p.length (keyLen - p.length)).mapM (legacyByte p)).map (p ++ ·)
@@ -124,21 +138,32 @@ def legacyKey (p : Bytes) : Option Bytes :=
 def deriveKey (C : Crypto) (pass salt : Bytes) : Option C.Key :=
   if salt.length = 0 then (legacyKey pass).map C.raw else some (C.argon pass salt)
 
-/-- common prefix of `loadKeys` and `ExportPrivateKey`: derive, open. -/
-def decrypt (C : Crypto) (pass : Bytes) (f : File C) : Res Bytes :=
-  match deriveKey C pass (fld f.salt) with
-  | none => .panic .divZero
-  | some k =>
-    if (fld f.nonce).length ≠ nonceSize then .panic .nonceLen
-    else
-      match f.ct with
-      | none => .err .auth          -- len(ciphertext) < tag size
-      | some ct =>
-        match C.dec k (fld f.nonce) ct with
-        | none => .err .auth
-        | some m => .ok m
+/-- `gcm.Open(nil, nonce, ciphertext, nil)` as the library behaves: it **panics** on a nonce whose
+length is not `gcm.NonceSize()`; a ciphertext shorter than the tag (here: absent) or one that does
+not authenticate is an error. -/
+def gcmOpen (C : Crypto) (k : C.Key) (nonce : Bytes) (ct : Option C.Ct) : Res Bytes :=
+  if nonce.length ≠ nonceSize then .panic .nonceLen
+  else
+    match ct with
+    | none => .err .auth          -- len(ciphertext) < tag size
+    | some ct =>
+      match C.dec k nonce ct with
+      | none => .err .auth
+      | some m => .ok m
 
-/-- `loadKeys` (local.go:316-378). -/
+/-- common prefix of `loadKeys` and `ExportPrivateKey`, line by line: reject the empty passphrase
+on the legacy path, derive, reject a nonce of the wrong length, open. -/
+def decrypt (C : Crypto) (pass : Bytes) (f : File C) : Res Bytes :=
+  if (fld f.salt).length = 0 ∧ pass.length = 0 then .err .emptypass
+  else
+    match deriveKey C pass (fld f.salt) with
+    | none => .panic .divZero
+    | some k =>
+      if (fld f.nonce).length ≠ nonceSize then .err .nonce
+      else gcmOpen C k (fld f.nonce) f.ct
+
+/-- `loadKeys`: decrypt, parse both keys, and accept the stored public key only if it is the
+public key of the decrypted private key (`privKey.GetPublic().Equals(pubKey)`: raw bytes equal). -/
 def load (C : Crypto) (pass : Bytes) (f : File C) : Res (Signer C) :=
   match decrypt C pass f with
   | .panic p => .panic p
@@ -147,11 +172,12 @@ def load (C : Crypto) (pass : Bytes) (f : File C) : Res (Signer C) :=
     match C.parsePriv m with
     | none => .err .privkey
     | some sk =>
-      match C.parsePub (fld f.pub) with     -- the stored public key, taken as is
+      match C.parsePub (fld f.pub) with
       | none => .err .pubkey
-      | some pk => .ok { sk := sk, pk := pk }
+      | some pk =>
+        if C.pubBytes (C.pubOf sk) = C.pubBytes pk then .ok { sk := sk, pk := pk } else .err .pubmismatch
 
-/-- `saveKeys` (local.go:236-313); `salt` (16 bytes) and `nonce` (12 bytes) come from `crypto/rand`. -/
+/-- `saveKeys`; `salt` (16 bytes) and `nonce` (12 bytes) come from `crypto/rand`. -/
 def save (C : Crypto) (pass : Bytes) (sk : C.SK) (salt nonce : Bytes) : File C :=
   { ct := some (C.enc (C.argon pass salt) nonce (C.privBytes sk)),
     nonce := some nonce,
@@ -167,10 +193,10 @@ def saveLegacy (C : Crypto) (pass : Bytes) (sk : C.SK) (nonce : Bytes) : Option 
       pub := some (C.pubBytes (C.pubOf sk)),
       salt := none }
 
-/-- `ExportPrivateKey` (local.go:110-153). -/
+/-- `ExportPrivateKey` (it never looks at `pub_key`). -/
 def exportKey (C : Crypto) (pass : Bytes) (f : File C) : Res Bytes := decrypt C pass f
 
-/-- `ImportPrivateKey` (local.go:158-233). -/
+/-- `ImportPrivateKey`. -/
 def importKey (C : Crypto) (pass raw salt nonce : Bytes) : Res (File C) :=
   match C.parsePriv raw with
   | none => .err .privkey
@@ -186,12 +212,12 @@ def exportDisk (C : Crypto) (pass : Bytes) : Disk C → Res Bytes
   | .garbage => .err .json
   | .file f => exportKey C pass f
 
-/-- `CreateFileSystemSigner` (local.go:39-78): refuses to overwrite. -/
+/-- `CreateFileSystemSigner`: refuses to overwrite. -/
 def create (C : Crypto) (pass : Bytes) (sk : C.SK) (salt nonce : Bytes) : Disk C → Res (Signer C × Disk C)
   | .absent => .ok ({ sk := sk, pk := C.pubOf sk }, .file (save C pass sk salt nonce))
   | _ => .err .exists_
 
-/-- `getAddress` (local.go:445) = `noop.getAddress` (noop/signer.go:54) = `types.KeyAddress`
+/-- `getAddress` (local.go) = `noop.getAddress` (noop/signer.go:54) = `types.KeyAddress`
 (types/signer.go:42): SHA-256 of the raw public key. -/
 def address (C : Crypto) (pk : C.PK) : Bytes := sha256 (C.pubBytes pk)
 
@@ -201,28 +227,28 @@ def Signer.Consistent {C : Crypto} (s : Signer C) : Prop := ∀ m, C.verify s.pk
 /-- executable probe of the same (what the monitor does on the real signer) -/
 def Signer.probe {C : Crypto} (s : Signer C) (m : Bytes) : Bool := C.verify s.pk m (C.sign s.sk m)
 
-/-! ## The proposed repair (notes/C19.md) — *not* what the code does, not run by the driver
+/-! ## Before the repair (history) — *not* what the code does, not run by the driver
 
-`loadFixed` = `load` with the three checks of the proposed patch: reject the empty passphrase on the
-legacy path, reject a nonce of the wrong length, reject a stored public key that is not the private
-key's.  `Spec.C19.fixed_*` prove that these three checks are sufficient for the full statement. -/
+`loadPre` = `loadKeys` before the three `fix:` commits (notes/C19.md): no guard in front of the two
+partial operations, stored public key taken as is.  Only used by `Spec.C19.repair_*`, which state
+what the repair changed (nothing that was right is rejected, nothing new is accepted). -/
 
-def decryptFixed (C : Crypto) (pass : Bytes) (f : File C) : Res Bytes :=
-  if (fld f.salt).length = 0 ∧ pass.length = 0 then .err .auth
-  else if (fld f.nonce).length ≠ nonceSize then .err .json
-  else decrypt C pass f
+def decryptPre (C : Crypto) (pass : Bytes) (f : File C) : Res Bytes :=
+  match deriveKey C pass (fld f.salt) with
+  | none => .panic .divZero
+  | some k => gcmOpen C k (fld f.nonce) f.ct
 
-def loadFixed (C : Crypto) (pass : Bytes) (f : File C) : Res (Signer C) :=
-  match decryptFixed C pass f with
+def loadPre (C : Crypto) (pass : Bytes) (f : File C) : Res (Signer C) :=
+  match decryptPre C pass f with
   | .panic p => .panic p
   | .err e => .err e
   | .ok m =>
     match C.parsePriv m with
     | none => .err .privkey
     | some sk =>
-      match C.parsePub (fld f.pub) with
+      match C.parsePub (fld f.pub) with     -- the stored public key, taken as is
       | none => .err .pubkey
-      | some pk => if C.pubBytes (C.pubOf sk) = C.pubBytes pk then .ok { sk := sk, pk := pk } else .err .pubkey
+      | some pk => .ok { sk := sk, pk := pk }
 
 /-! ## A concrete symbolic instance (for the driver and for the witnesses) -/
 
